@@ -28,6 +28,26 @@
 
 #include "assert.h"
 
+//! Verification hook: poison blocks parked on the free list so that a use after free()
+//! of a pooled object is reported by AddressSanitizer. Expands to nothing otherwise.
+#if defined(TBOX_VERIF_HOOKS)
+# if defined(__SANITIZE_ADDRESS__)
+#  define TBOX_VERIF_POOL_ASAN 1
+# elif defined(__has_feature)
+#  if __has_feature(address_sanitizer)
+#   define TBOX_VERIF_POOL_ASAN 1
+#  endif
+# endif
+#endif
+#if defined(TBOX_VERIF_POOL_ASAN)
+# include <sanitizer/asan_interface.h>
+# define TBOX_VERIF_POOL_POISON(p, n)   __asan_poison_memory_region((p), (n))
+# define TBOX_VERIF_POOL_UNPOISON(p, n) __asan_unpoison_memory_region((p), (n))
+#else
+# define TBOX_VERIF_POOL_POISON(p, n)   ((void)0)
+# define TBOX_VERIF_POOL_UNPOISON(p, n) ((void)0)
+#endif
+
 namespace tbox {
 
 /**
@@ -82,6 +102,7 @@ class ObjectPool {
     ~ObjectPool() {
         //! 释放掉所有的空闲块
         while (free_header_ != nullptr) {
+            TBOX_VERIF_POOL_UNPOISON(free_header_, sizeof(Block));
             auto next = free_header_->next;
             ::free(free_header_);
             free_header_ = next;
@@ -103,6 +124,7 @@ class ObjectPool {
             block = reinterpret_cast<Block*>(malloc(sizeof(Block)));
         } else {
             //! 直接从空闲块链表取出一块
+            TBOX_VERIF_POOL_UNPOISON(block, sizeof(Block));
             free_header_ = block->next;
             --free_number_;
         }
@@ -136,6 +158,7 @@ class ObjectPool {
 
             if (free_number_ > stat_.peak_free_number)
                 stat_.peak_free_number = free_number_;
+            TBOX_VERIF_POOL_POISON(block, sizeof(Block));
         } else {
             //! 否则就直接释放掉
             ::free(block);
